@@ -2,6 +2,7 @@ package props
 
 import (
 	"fmt"
+	"go/ast"
 	"go/token"
 	"go/types"
 	"strings"
@@ -20,16 +21,18 @@ func init() {
 		Explanation: "Behaviour of call sequences against a reference model is NOT decided (no sound static argument in reach). Decided are five structural necessary conditions, each of which, when broken, yields a concrete sequence that deviates from the model: " +
 			"(R16.1) no closed entry stays in the descriptor table – after closing the file of an entry obtained by Lookup(k) every successful path deletes or replaces slot k, an entry re-inserted under another key is guarded by a test that the keys differ (renumbering onto itself is a no-op), and closing the context resets the table; " +
 			"(R16.2) the directory cookie reaches the dirent cache as the guest's 64-bit value (no narrowing); (R16.3) descriptor allocation scans the occupancy words from word 0 (lowest-free) and grows by one word only when all are full; " +
-			"(R16.4) fd_readdir's reported bufused depends on the truncation indicator (an entry that does not fit is reported as truncated, not as end of directory); (R16.5) the dirent cache returns cached entries only after the refill test (a short result means end of directory).",
+			"(R16.4) fd_readdir's reported bufused depends on the truncation indicator (an entry that does not fit is reported as truncated, not as end of directory); (R16.5) the dirent cache returns cached entries only after the refill test (a short result means end of directory); (R16.6) the dirent cache never reduces the requested count, because fd_readdir asks for one entry more than fits and reads a short answer as end-of-directory.",
 		Rules: []core.Rule{
 			{ID: "R16.1", Template: "T-TYPESTATE", Text: "closed entries leave the table; re-insertion under a different key is guarded by key inequality; context close resets the table", Min: 4},
 			{ID: "R16.2", Template: "T-WIDTH", Text: "cookie passed to the dirent cache without narrowing", Min: 1},
 			{ID: "R16.3", Template: "T-CONSULT", Text: "Insert scans from word 0", Min: 1},
 			{ID: "R16.4", Template: "T-CONSULT", Text: "bufused depends on the truncation indicator", Min: 1},
+			{ID: "R16.6", Template: "T-NONINTERF", Text: "the dirent cache never reduces the requested count (fd_readdir derives end-of-directory from a short answer)", Min: 1},
 			{ID: "R16.5", Template: "T-MUSTPASS", Text: "cached dirents are returned only after the populate step or the refill test", Min: 1},
 		},
 		Run: runC16,
 		Controls: []core.Control{
+			{Name: "dirent-count-clamped", File: "internal/sys/fs.go", Old: "\tif n == 0 {\n\t\treturn // special case no entries.\n\t}\n", New: "\tif n == 0 {\n\t\treturn // special case no entries.\n\t} else if n > 256 {\n\t\tn = 256\n\t}\n", Rule: "R16.6", Substr: "requested count"},
 			{Name: "renumber-self", File: "internal/sys/fs.go", Old: "\t} else if from == to {\n\t\treturn 0 // Renumbering onto itself is a no-op: closing \"to\" would close the file being moved.\n\t}", New: "\t}", Rule: "R16.1", Substr: "Renumber"},
 			{Name: "closefile-keeps-entry", File: "internal/sys/fs.go", Old: "\tc.openedFiles.Delete(fd)\n\treturn errno\n}", New: "\treturn errno\n}", Rule: "R16.1", Substr: "CloseFile"},
 			{Name: "context-close-keeps-table", File: "internal/sys/fs.go", Old: "\tc.openedFiles = FileTable{}\n", New: "", Rule: "R16.1", Substr: "Close"},
@@ -78,6 +81,7 @@ func tableMethod(ci ssa.CallInstruction) string {
 
 func runC16(c *core.Ctx) {
 	c.SSA()
+	checkCountNotClamped(c)
 	sysFns := moduleFns(c, "internal/sys")
 	// lookups: value → key
 	type lk struct {
@@ -541,4 +545,62 @@ func pathsMissing(fn *ssa.Function, start ssa.Instruction, hit func(ssa.Instruct
 	}
 	walk(b, idx)
 	return bad
+}
+
+// ---- R16.6 the dirent cache honours the requested count: it is never reduced on the way ----
+
+func checkCountNotClamped(c *core.Ctx) {
+	p := c.Pkg("internal/sys")
+	if p == nil {
+		return
+	}
+	info := p.TypesInfo
+	n := 0
+	core.AllFuncDecls(p, func(fd *ast.FuncDecl) {
+		if core.RecvName(fd) != "DirentCache" || fd.Type.Params == nil || fd.Type.Results == nil {
+			return
+		}
+		// the read method: returns a slice of dirents and takes an unsigned count
+		retsDirents := false
+		for _, r := range fd.Type.Results.List {
+			if t := info.Types[r.Type].Type; t != nil && strings.Contains(t.String(), "Dirent") {
+				retsDirents = true
+			}
+		}
+		if !retsDirents {
+			return
+		}
+		var counts []types.Object
+		for _, f := range fd.Type.Params.List {
+			for _, nm := range f.Names {
+				if o := info.Defs[nm]; o != nil && basicKind(o.Type()) == types.Uint32 {
+					counts = append(counts, o)
+				}
+			}
+		}
+		for _, cnt := range counts {
+			n++
+			var bad []string
+			ast.Inspect(fd.Body, func(x ast.Node) bool {
+				switch y := x.(type) {
+				case *ast.AssignStmt:
+					for _, l := range y.Lhs {
+						if id, ok := ast.Unparen(l).(*ast.Ident); ok && info.Uses[id] == cnt {
+							bad = append(bad, "`"+core.ExprStr(y.Lhs[0])+" "+y.Tok.String()+" "+core.ExprStr(y.Rhs[0])+"` at "+c.Pos(y.Pos()))
+						}
+					}
+				case *ast.IncDecStmt:
+					if id, ok := ast.Unparen(y.X).(*ast.Ident); ok && info.Uses[id] == cnt {
+						bad = append(bad, "`"+core.ExprStr(y.X)+y.Tok.String()+"` at "+c.Pos(y.Pos()))
+					}
+				}
+				return true
+			})
+			c.Check(len(bad) == 0, "R16.6", "the requested count of "+core.FuncName(p, fd)+" is never reduced", fd.Pos(), "the parameter is only read",
+				"the count is overwritten ("+strings.Join(bad, "; ")+"): fd_readdir asks for one entry more than fits into the guest's buffer and takes a short answer as the end of the directory, so a clamped count silently drops every later entry")
+		}
+	})
+	if n == 0 {
+		c.Undecided("R16.6", "dirent cache read method", 0, "no DirentCache method returning dirents with a uint32 count found")
+	}
 }
